@@ -218,7 +218,7 @@ func checkC17(c *Ctx, r *Report) {
 				lk := lookups[0]
 				isOK := func(v ssa.Value) bool { e, ok := v.(*ssa.Extract); return ok && e.Tuple == lk && e.Index == 1 }
 				var hit []CFGEdge
-				for _, b := range f.Blocks {
+				for _, b := range blocksDeep(f) {
 					for s := range b.Succs {
 						if edgeBool(isOK, true)(b, s) {
 							hit = append(hit, CFGEdge{b, s})
